@@ -549,9 +549,18 @@ func (e *Exec) runAsm(fn *asmFunc, args []aval, feat bool) {
 			s.dst(a[1], aval{t: r}, bits)
 		case strings.HasPrefix(op, "SET"):
 			c := s.cond(op[3:])
-			old := s.intOf(s.reg(a[0]))
-			r := b.Concat(b.Extract(old, 63, 8), b.Ite(c, b.ConstU(8, 1), b.ConstU(8, 0)))
-			s.dst(a[0], aval{t: r}, 64)
+			rn := a[0]
+			if full, ok := map[string]string{"AL": "AX", "BL": "BX", "CL": "CX", "DL": "DX"}[rn]; ok {
+				rn = full
+			}
+			old := s.intOf(s.reg(rn))
+			var r *Term
+			if hi := b.Extract(old, 63, 8); hi.isZero() {
+				r = b.ZExt(s.bit(c), 64) // MOVQ $0, AX; SETcc AL: the flag as a 1-bit term (keeps carry equations linear)
+			} else {
+				r = b.Concat(hi, b.ZExt(s.bit(c), 8))
+			}
+			s.dst(rn, aval{t: r}, 64)
 		case op == "CMPB":
 			// only the CPU-feature dispatch: CMPB ·hasXxx(SB), $0
 			if len(a) == 2 && strings.HasSuffix(a[0], "(SB)") && a[1] == "$0" {
